@@ -602,6 +602,11 @@ def preprocess_observation(
 
         space_shape = observation_space.shape
 
+        # A scalar Box is a vector space with one feature
+        if len(space_shape) == 0:
+            observation = observation.unsqueeze(-1)
+            space_shape = (1,)
+
     elif isinstance(observation_space, spaces.Discrete):
         # One hot encoding of discrete observation
         observation = F.one_hot(
